@@ -4,7 +4,7 @@ import ast
 from ..core import rule
 from ..flow import Flow
 from ..linear import Defs
-from ..srcmodel import AnalysisError, call_name, norm, own_nodes, short
+from ..srcmodel import param_names, short, AnalysisError, call_name, norm, own_nodes, short
 
 
 @rule("D1", ["C14"], "the cycle flag of topological_sort is consumed: sort_classes raises before returning anything")
@@ -192,3 +192,49 @@ def d5(cx):
     bk = m.func("context_cpu::ContextCpu.build_kernels")
     cd = [s for s in own_nodes(bk) if isinstance(s, ast.Assign) and norm(s.targets[0]) == "cdefs"]
     cx.check(bool(cd) and "for cls in classes" in norm(cd[0].value) and "_gen_c_decl" in norm(cd[0].value), cd[0] if cd else bk, construct=short(cd[0], 120) if cd else "?", detail="cffi declarations follow the same sorted list (typedefs before use)", bad_detail="cffi declarations are not generated from the sorted class list", sub="cdefs")
+
+
+@rule("D6", ["C14"], "what a class contributes to a build (API source, declarations, kernels, paths, inner types) is computed from that class: no memo that a subclass can inherit")
+def d6(cx):
+    """A generator that stores its result on the class (`cls._x = result`) and looks it up again with an attribute
+    lookup that follows inheritance (`getattr(cls, '_x', None)`, `cls._x`, `hasattr(cls, '_x')`) hands a subclass the
+    result of its base class: the base's API is emitted twice and the subclass's not at all (seeded C14-b).  A memo is
+    accepted when it is read from the class's own namespace (`cls.__dict__` / `vars(cls)`)."""
+    m = cx.m
+    GEN = ("_gen_c_api", "_gen_c_decl", "_gen_kernels", "_gen_data_paths", "_get_inner_types", "_gen_c_api_h")
+    n = 0
+    for modname in ("struct", "array", "ref", "string", "hybrid_class"):
+        for fn in m.all_functions(modname):
+            if fn.name not in GEN:
+                continue
+            n += 1
+            params = param_names(fn)
+            if not params:
+                continue
+            c0 = params[0]
+            stored = {}
+            for st in own_nodes(fn):
+                if isinstance(st, ast.Assign):
+                    for t in st.targets:
+                        if isinstance(t, ast.Attribute) and norm(t.value) == c0:
+                            stored[t.attr] = st
+                if isinstance(st, ast.Call) and call_name(st) in ("setattr",) and len(st.args) == 3 and norm(st.args[0]) == c0 and isinstance(st.args[1], ast.Constant):
+                    stored[st.args[1].value] = st
+            if not stored:
+                cx.ok(fn, construct=f"{m.qualname(fn).split('::')[1]}: nothing is memoised on the class", detail="the result is recomputed from the class's own fields / item type / members", trivial=True)
+                continue
+            for attr, st in stored.items():
+                reads = []
+                for x in own_nodes(fn):
+                    if isinstance(x, ast.Attribute) and isinstance(x.ctx, ast.Load) and x.attr == attr and norm(x.value) == c0:
+                        reads.append(x)
+                    if isinstance(x, ast.Call) and call_name(x) in ("getattr", "hasattr") and len(x.args) >= 2 and norm(x.args[0]) == c0 and isinstance(x.args[1], ast.Constant) and x.args[1].value == attr:
+                        reads.append(x)
+                own = [x for x in own_nodes(fn) if isinstance(x, (ast.Subscript, ast.Call, ast.Compare)) and (f"{c0}.__dict__" in norm(x) or f"vars({c0})" in norm(x)) and repr(attr) in norm(x)]
+                if reads:
+                    cx.bad(reads[0], construct=f"{m.qualname(fn).split('::')[1]}: memo `{c0}.{attr}` read with {short(reads[0], 60)}", detail=f"the lookup follows inheritance: a class derived from a class whose `{attr}` is already set gets the BASE class's result as its own (its own API/declarations are never generated, the base's are emitted again)")
+                elif own:
+                    cx.ok(st, construct=f"{m.qualname(fn).split('::')[1]}: memo `{attr}` read from the class's own namespace", detail="a subclass does not see its base's memo")
+                else:
+                    cx.note(st, construct=f"{m.qualname(fn).split('::')[1]}: stores `{c0}.{attr}`, never read here", detail="not a memo of this function")
+    cx.need(n >= 8, f"only {n} generator methods found")
